@@ -111,6 +111,7 @@ class Ctx:
         self.tr, self.fn_name, self.env, self.rd, self.ret, self.reader_fn, self.partial = tr, fn_name, dict(env), rd, ret, reader_fn, partial
         self.counter = [0]
         self.rd_alias = set()      # python names bound to the reader object
+        self.narrow = set()        # source text of Optional expressions known to be non-None here (`if x:` on Optional[int])
 
     def fresh(self, base):
         self.counter[0] += 1
@@ -120,6 +121,7 @@ class Ctx:
         c = Ctx(self.tr, self.fn_name, self.env, self.rd, self.ret, self.reader_fn, self.partial)
         c.counter = self.counter
         c.rd_alias = set(self.rd_alias)
+        c.narrow = set(self.narrow)
         return c
 
 
@@ -205,6 +207,15 @@ class Translator:
         ev = self.enum_value(n)
         if ev is not None:
             return str(ev), NAT
+        if isinstance(n, (ast.Name, ast.Attribute)) and ast.unparse(n) in c.narrow:
+            c.narrow.discard(ast.unparse(n))
+            try:
+                e0, t0 = self.ex(n, c, binds)
+            finally:
+                c.narrow.add(ast.unparse(n))
+            if t0 == T_opt(NAT):
+                return "(%s.getD 0)" % e0, NAT
+            return e0, t0
         if isinstance(n, ast.Constant):
             v = n.value
             if v is None:
@@ -232,6 +243,12 @@ class Translator:
                     if f == n.attr:
                         return "%s.%s" % (n.value.id, f), ft
                 raise Untranslatable("field %s of %s" % (n.attr, rec))
+            if isinstance(n.value, ast.Attribute):
+                inner, ti = self.ex(n.value, c, binds)
+                if ti[0] == "rec":
+                    for f, ft, _ in self.records[ti[1]]:
+                        if f == n.attr:
+                            return "%s.%s" % (inner, f), ft
             if isinstance(n.value, ast.Name) and n.value.id in c.env and c.env[n.value.id] == CS and n.attr == "codec":
                 return n.value.id, CS
             # Collation(x).charset
@@ -451,6 +468,19 @@ class Translator:
                 if ta == tb:
                     return "(max %s %s)" % (a, b), ta
                 raise Untranslatable("max of mixed types")
+            if name == "next" and len(n.args) == 1:
+                tgt = n.args[0]
+                # next(self.field): the field is an object with a translated __next__ that returns (value, new object)
+                if isinstance(tgt, ast.Attribute) and isinstance(tgt.value, ast.Name) and c.env.get(tgt.value.id, (None,))[0] == "rec":
+                    obj = tgt.value.id
+                    ft = [x[1] for x in self.records[c.env[obj][1]] if x[0] == tgt.attr]
+                    if ft and ft[0][0] == "rec" and (ft[0][1] + ".__next__") in self.fns:
+                        fn = self.fns[ft[0][1] + ".__next__"]
+                        v, o2 = c.fresh("v"), c.fresh("it")
+                        binds.append(("pure:(%s, %s)" % (v, o2), "%s %s.%s" % (fn.lean, obj, tgt.attr)))
+                        binds.append(("let:%s" % obj, "{ %s with %s := %s }" % (obj, tgt.attr, o2)))
+                        return v, fn.ret
+                raise Untranslatable("next(" + ast.unparse(tgt) + ")")
             if name == "peek" and len(n.args) == 1 and self.is_reader(n.args[0], c):
                 return "(Mimic.Py.peek1 %s)" % c.rd, BYTES
             if name == "_concat":
@@ -531,7 +561,19 @@ class Translator:
             if isinstance(f.value, ast.Name) and f.value.id in c.env and c.env[f.value.id][0] == "rec":
                 key = c.env[f.value.id][1] + "." + f.attr
                 if key in self.fns:
-                    return self.call_fn(self.fns[key], [f.value] + list(n.args), n.keywords, c, binds)
+                    fn = self.fns[key]
+                    if getattr(fn, "mutating", False):
+                        obj = f.value.id
+                        b2 = []
+                        args = [self.ex(a, c, binds, pt) for a, (pn, pt, pd) in zip(n.args, fn.params[1:])]
+                        term = "%s%s%s %s%s" % (fn.lean, " E" if fn.env else "", " fuel" if fn.fuel else "", obj,
+                                                "".join(" " + self.coerce(e, t, pt) for (e, t), (pn, pt, pd) in zip(args, fn.params[1:])))
+                        v, o2 = c.fresh("v"), c.fresh("obj")
+                        pat = "(%s, %s)" % (v, o2) if fn.ret != ("unit",) else o2
+                        binds.append((pat if fn.partial else "pure:" + pat, term))
+                        binds.append(("let:%s" % obj, o2))
+                        return (v if fn.ret != ("unit",) else "()"), fn.ret
+                    return self.call_fn(fn, [f.value] + list(n.args), n.keywords, c, binds)
             raise Untranslatable("method call " + ast.unparse(n)[:80])
         raise Untranslatable("call " + ast.unparse(n)[:80])
 
@@ -563,7 +605,7 @@ class Translator:
                 out.append(pd)
             else:
                 raise Untranslatable("missing argument %s of %s" % (pn, fn.name))
-        head = fn.lean + (" E" if fn.env else "")
+        head = fn.lean + (" E" if fn.env else "") + (" fuel" if fn.fuel else "")
         if fn.reader:
             term = "%s %s%s" % (head, c.rd, "".join(" " + x for x in out))
             v, r2 = c.fresh("v"), c.fresh("r")
@@ -639,14 +681,21 @@ class Translator:
     # ---------------------------------------------------------------- statements
     def wrap(self, binds, body):
         """emit the effect binds in order around `body`"""
-        if binds and not self._partial_mode:
+        if any(not p.startswith(("let:", "pure:")) for p, _ in binds) and not self._partial_mode:
             raise Untranslatable("effects in a total function")
         for pat, term in reversed(binds):
-            body = "match %s with\n| none => none\n| some %s =>\n%s" % (term, pat, ind(body))
+            if pat.startswith("let:"):
+                body = "let %s := %s\n%s" % (pat[4:], term, body)
+            elif pat.startswith("pure:"):
+                body = "match %s with\n| %s =>\n%s" % (term, pat[5:], ind(body))
+            else:
+                body = "match %s with\n| none => none\n| some %s =>\n%s" % (term, pat, ind(body))
         return body
 
     def result(self, c, e):
         """a function result in the function's monad"""
+        if getattr(self, "mutating", False):
+            e = "(%s, self)" % e if e != "()" else "self"
         if c.reader_fn:
             return "some (%s, %s)" % (e, c.rd)
         return "some %s" % e if c.partial else e
@@ -666,12 +715,22 @@ class Translator:
                 add(t.value.id)
             elif isinstance(t, ast.Subscript) and isinstance(t.value, ast.Name):
                 add(t.value.id)
+            elif isinstance(t, ast.Subscript) and isinstance(t.value, ast.Attribute) and isinstance(t.value.value, ast.Name):
+                add(t.value.value.id)
             elif isinstance(t, (ast.Tuple, ast.List)):
                 for x in t.elts:
                     tgt(x)
 
         def walk(ss):
             for s in ss:
+                for x in ast.walk(s):
+                    if isinstance(x, ast.Call) and isinstance(x.func, ast.Attribute) and isinstance(x.func.value, ast.Name) \
+                            and x.func.value.id in c.env and c.env[x.func.value.id][0] == "rec" \
+                            and getattr(self.fns.get(c.env[x.func.value.id][1] + "." + x.func.attr), "mutating", False):
+                        add(x.func.value.id)
+                    if isinstance(x, ast.Call) and isinstance(x.func, ast.Name) and x.func.id == "next" and x.args \
+                            and isinstance(x.args[0], ast.Attribute) and isinstance(x.args[0].value, ast.Name):
+                        add(x.args[0].value.id)
                 if isinstance(s, ast.Assign):
                     for t in s.targets:
                         tgt(t)
@@ -756,6 +815,17 @@ class Translator:
                         binds = []
                         e, t = self.call_fn(fn, [f.value] + list(call.args), call.keywords, c, binds)
                         return self.wrap(binds, "let %s := %s\n%s" % (obj, e, cont(c)))
+            # self.f.pop(k, None)
+            if isinstance(f, ast.Attribute) and f.attr == "pop" and isinstance(f.value, ast.Attribute) and isinstance(f.value.value, ast.Name) \
+                    and c.env.get(f.value.value.id, (None,))[0] == "rec" and len(call.args) == 2 \
+                    and isinstance(call.args[1], ast.Constant) and call.args[1].value is None:
+                obj, fld = f.value.value.id, f.value.attr
+                ft = [x[1] for x in self.records[c.env[obj][1]] if x[0] == fld]
+                if ft and ft[0][0] == "dict":
+                    binds = []
+                    kx, tk = self.ex(call.args[0], c, binds)
+                    return self.wrap(binds, "let %s := { %s with %s := Mimic.Py.dictErase %s.%s %s }\n%s" % (
+                        obj, obj, fld, obj, fld, self.coerce(kx, tk, ft[0][1]), cont(c)))
             binds, e, t = self.expr(call, c)
             return self.wrap(binds, cont(c))
         if isinstance(s, ast.If):
@@ -817,6 +887,16 @@ class Translator:
                 to = T_dict(tk, tv)
                 c.env[obj] = to
             return self.wrap(binds, "let %s := Mimic.Py.dictSet %s %s %s\n%s" % (obj, obj, self.coerce(kx, tk, to[1]), self.coerce(vx, tv, to[2]), cont(c)))
+        if isinstance(tg, ast.Subscript) and isinstance(tg.value, ast.Attribute) and isinstance(tg.value.value, ast.Name) \
+                and c.env.get(tg.value.value.id, (None,))[0] == "rec":
+            obj, fld = tg.value.value.id, tg.value.attr
+            ft = [x[1] for x in self.records[c.env[obj][1]] if x[0] == fld]
+            if ft and ft[0][0] == "dict":
+                binds = []
+                kx, tk = self.ex(tg.slice, c, binds)
+                vx, tv = self.ex(value, c, binds, ft[0][2])
+                return self.wrap(binds, "let %s := { %s with %s := Mimic.Py.dictSet %s.%s %s %s }\n%s" % (
+                    obj, obj, fld, obj, fld, self.coerce(kx, tk, ft[0][1]), self.coerce(vx, tv, ft[0][2]), cont(c)))
         raise Untranslatable("assignment to " + ast.unparse(tg))
 
     def state(self, names, c, with_reader):
@@ -831,6 +911,11 @@ class Translator:
     def if_stmt(self, s, rest, c, k):
         binds, ce, ct = self.expr(s.test, c)
         cond = self.truth(ce, ct)
+        if ct == T_opt(NAT) and isinstance(s.test, (ast.Name, ast.Attribute)):
+            # `if x:` on Optional[int]: true iff x is neither None nor 0; inside the body x is an int
+            cond = "(match %s with | some v => v != 0 | none => false)" % ce
+            c = c.copy()
+            c.narrow.add(ast.unparse(s.test))
         body_t, else_t = self.terminates(s.body), self.terminates(s.orelse)
         cont = lambda c2: self.block(rest, c2, k)
         if body_t and else_t:
@@ -983,6 +1068,9 @@ class Translator:
             items = [self.coerce(nm, c2.env[nm], before[nm]) for nm in names] + ([c2.rd] if with_rd else [])
             return "()" if not items else items[0] if len(items) == 1 else "(" + ", ".join(items) + ")"
         rett = lean_type(c.ret) if not c.reader_fn else "(%s × Bytes)" % lean_type(c.ret)
+        if getattr(self, "mutating", False):
+            st = lean_type(c.env["self"])
+            rett = st if c.ret == ("unit",) else "(%s × %s)" % (lean_type(c.ret), st)
         sty = self.state_type(names, before, with_rd)
 
         def leaf(c2):
@@ -1069,14 +1157,14 @@ class Translator:
             for n in self.tree.body:
                 if isinstance(n, ast.ClassDef) and n.name == cls:
                     for f in n.body:
-                        if isinstance(f, ast.FunctionDef) and f.name == m:
+                        if isinstance(f, (ast.FunctionDef, ast.AsyncFunctionDef)) and f.name == m:
                             return f
         for n in self.tree.body:
             if isinstance(n, ast.FunctionDef) and n.name == name:
                 return n
         raise Untranslatable("function %s not found" % name)
 
-    def function(self, name, lean_name=None, param_types=None, ret=None, self_type=None, defaults=None):
+    def function(self, name, lean_name=None, param_types=None, ret=None, self_type=None, defaults=None, mutating=False, fuel_param=False):
         """translate one function and register it; returns the Lean text"""
         f = self.find(name)
         lean_name = lean_name or name.replace(".", "_").lstrip("_")
@@ -1115,6 +1203,7 @@ class Translator:
             raise Untranslatable("%s: no return type" % name)
         uses_env = False
         last_err = None
+        self.mutating = mutating
         for partial in (False, True):
             c = Ctx(self, name, env, "r" if reader else None, rt, bool(reader), partial)
             if reader:
@@ -1138,11 +1227,15 @@ class Translator:
             sig = "".join(" (%s : %s)" % (p, lean_type(t)) for p, t, _ in params)
             head = "def %s%s%s%s%s" % (lean_name, " (E : Env S)" if uses_env else "", " (fuel : Nat)" if fuel else "", " (r : Bytes)" if reader else "", sig)
             rl = lean_type(rt)
+            if mutating:
+                rl = lean_type(self_type) if rt == ("unit",) else "(%s × %s)" % (rl, lean_type(self_type))
             if reader:
                 rty = "Option (%s × Bytes)" % rl
             else:
                 rty = ("Option %s" % rl) if partial else rl
             self.fns[name.split(".")[-1] if "." not in name else name] = Fn(name, lean_name, params, rt, bool(reader), partial, fuel, uses_env)
+            self.fns[name.split(".")[-1] if "." not in name else name].mutating = mutating
+            self.mutating = False
             if "." in name:
                 self.fns[name] = self.fns[name]
             text = "".join(t + "\n" for t in self.pending) + "%s : %s :=\n%s\n" % (head, rty, ind(body))
@@ -1288,3 +1381,49 @@ def translate_packet_parsers():
 
 if __name__ == "__main__":
     print(translate_packet_parsers())
+
+
+# ----------------------------------------------------------------------------- control.py: LocalControl, utils.seq
+def translate_control():
+    """→ Lean source of namespace Mimic.Extracted.ControlCode: utils.seq (__next__, reset) and LocalControl
+    (_new_connection_id, add, remove) as functions over explicit object states"""
+    from mysql_mimic import control as Ctl, utils as U
+    records = {
+        "seq": [("size", T_opt(NAT), None), ("value", NAT, None)],
+        # class attributes are fields so that the sequence space is a parameter (the check overrides them in a subclass)
+        "LocalControl": [("_connection_seq", T_rec("seq"), None), ("_connections", T_dict(NAT, NAT), None), ("server_id", NAT, None),
+                         ("_MAX_CONNECTION_SEQ", NAT, None), ("_CONNECTION_ID_BITS", NAT, None), ("_MAX_SERVER_ID", NAT, None)],
+    }
+    out = ["-- GENERATED by harness/extract.py (harness/pytrans2.py) from /repo/mysql_mimic/{utils,control}.py — do not edit",
+           "import Mimic.Py", "namespace Mimic.Extracted.ControlCode", "open Mimic.Py", "",
+           "variable {S : Type}", ""]
+    tu = Translator(U, {}, records)
+    out.append(tu.record_decl("seq"))
+    sq = T_rec("seq")
+    out.append(tu.function("seq.__next__", "seq_next", self_type=sq, ret=NAT, mutating=True))
+    out.append(tu.function("seq.reset", "seq_reset", self_type=sq, ret=("unit",), mutating=True))
+    tc = Translator(Ctl, {}, records, fuel_hints={"LocalControl._new_connection_id": "param", "LocalControl.add": "param"})
+    tc.fns.update(tu.fns)
+    lc = T_rec("LocalControl")
+    out.append(tc.record_decl("LocalControl"))
+    out.append(tc.function("LocalControl._new_connection_id", "new_connection_id", self_type=lc, ret=NAT, mutating=True))
+    out.append(tc.function("LocalControl.add", "add", self_type=lc, param_types={"connection": NAT}, ret=NAT, mutating=True))
+    out.append(tc.function("LocalControl.remove", "remove", self_type=lc, ret=("unit",), mutating=True))
+    # class constants as they are in the source
+    out.append("def maxConnectionSeq : Nat := %d" % Ctl.LocalControl._MAX_CONNECTION_SEQ)
+    out.append("def connectionIdBits : Nat := %d" % Ctl.LocalControl._CONNECTION_ID_BITS)
+    out.append("def maxServerId : Nat := %d" % Ctl.LocalControl._MAX_SERVER_ID)
+    # __init__: the initial state
+    src = inspect.getsource(Ctl.LocalControl.__init__)
+    want = ["self._connection_seq = seq(self._MAX_CONNECTION_SEQ)", "self._connections: Dict[int, Connection] = {}"]
+    for w in want:
+        if w not in src:
+            raise Untranslatable("LocalControl.__init__ no longer contains `%s`" % w)
+    isrc = inspect.getsource(U.seq.__init__)
+    if "self.size = size" not in isrc or "self.value = 0" not in isrc:
+        raise Untranslatable("seq.__init__ changed")
+    out.append("/-- `LocalControl(server_id)` with the class attributes as given -/")
+    out.append("def init (server_id n bits maxSid : Nat) : LocalControl S :=\n  { _connection_seq := { size := some n, value := 0 }, _connections := [], server_id := server_id,\n"
+               "    _MAX_CONNECTION_SEQ := n, _CONNECTION_ID_BITS := bits, _MAX_SERVER_ID := maxSid }")
+    out.append("end Mimic.Extracted.ControlCode")
+    return "\n".join(out) + "\n"
